@@ -527,7 +527,7 @@ def run_op(sd: SuccessionDiagram, op: dict, timeout_s: float = 45.0) -> tuple[Su
             ret = "ok"
         elif kind == "allseeds":
             for i in range(len(sd)):
-                sd.node_attractor_seeds(i, compute=True)
+                sd.node_attractor_seeds(i, compute=True, symbolic_fallback=ev["fallback"])
             ret = "ok"
         elif kind == "control":
             from biobalm.control import succession_control
